@@ -441,13 +441,18 @@ SCALES = [2.0 ** -10, 0.001, 0.125, 0.3, 1.0, 3.0, 7.5, 1000.0, 2.0 ** 12]
 @st.composite
 def a_map(draw, cls, nonneg):
     if cls == 'rank':
-        opts = ['identity', 'affine', 'cube', 'exp', 'lib-rank', 'lib-minmax'] + (['lib-sqrt'] if nonneg else [])
+        opts = ['identity', 'affine', 'cube', 'exp', 'lib-rank', 'lib-minmax', 'pow2'] + (
+            ['lib-sqrt'] if nonneg else [])
     elif cls == 'cos':
-        opts = ['identity', 'scale', 'scale']
+        opts = ['identity', 'scale', 'scale', 'pow2']
     else:
-        opts = ['identity', 'affine', 'affine', 'lib-minmax']
+        opts = ['identity', 'affine', 'affine', 'lib-minmax', 'pow2']
     k = draw(st.sampled_from(opts))
     m = {'kind': k}
+    if k == 'pow2':
+        # exact change of units by a power of two (strictly increasing, bit-exact order): values
+        # that differ by far less than any absolute tolerance must still rank the same
+        m['e'] = draw(st.sampled_from([-90, -40, -20, 30, 70]))
     if k in ('affine', 'scale'):
         m['a'] = draw(st.sampled_from(SCALES))
     if k == 'affine':
@@ -467,6 +472,8 @@ def apply_map(m, vecs):
         y = x * m['a']
     elif k == 'affine':
         y = x * m['a'] + m['b']
+    elif k == 'pow2':
+        y = x * 2.0 ** m['e']
     elif k == 'cube':
         y = x ** 3
     elif k == 'exp':
